@@ -311,6 +311,11 @@ def directed_scenarios(rng, lay: dict) -> list:
                                 ('corrupt-zlib-garbage', idb + b'not zlib at all'), ('corrupt-zlib-empty', idb)):
                 for obf in ((False, True) if kind != 'distributed' else (False,)):
                     out.append(mk(kind, obf, [(label, body), ('valid', valid_body(rng, lay, kind)[0])]))
+        # one valid frame of EVERY class the connection can receive (smallest value: empty bodies, 5-byte frames ...)
+        allf = [('valid', L.make_obj(lay, m, L.gen_message(rng, lay, m, 'none')).serialize()[4:]) for m in table_msgs(lay, kind)]
+        for obf in ((False, True) if kind != 'distributed' else (False,)):
+            for i in range(0, len(allf), 24):
+                out.append(mk(kind, obf, allf[i:i + 24]))
         seen = set()
         tries = 0
         while len(seen) < 6 and tries < 400:
@@ -373,6 +378,35 @@ def large_scenarios(rng, lay: dict, per_kind: int) -> list:
     return out
 
 
+def cross_family_scenarios(rng, lay: dict) -> list:
+    """The decoder of one connection must not depend on what OTHER connections received earlier (the model's
+    dispatcher is a function of the frame alone).  For every ordered pair of connection kinds (A, B): a frame on
+    an A connection whose message code is unknown to A's family but valid in B's, followed by a valid A frame;
+    then, on a B connection, valid frames carrying that very code.  The B scenario records the A scenario as
+    its `prelude`, so that a replay in a fresh process reproduces the history."""
+    out = []
+    for a in KINDS:
+        ids_a = {m['id'] for m in table_msgs(lay, a)}
+        wa = table_msgs(lay, a)[0]['id_width'] if a not in ('distributed',) else 1
+        for b in KINDS:
+            if a == b:
+                continue
+            cands = [m for m in table_msgs(lay, b) if m['id'] not in ids_a and m['id'] < 256 ** wa]
+            rng.shuffle(cands)
+            for m in cands[:2]:
+                def mk(kind, items):
+                    plains = [struct.pack('<I', len(x)) + x for _, x in items]
+                    return {'kind': kind, 'obf': False, 'labels': [l for l, _ in items], 'plains': plains, 'chunks': [b''.join(plains)],
+                            'ending': 'open', 'partial': b'', 'raise_every': 0}
+                foreign = m['id'].to_bytes(wa, 'little') + bytes(rng.randrange(256) for _ in range(6))
+                sa = mk(a, [('code-of-another-family', foreign), ('valid', valid_body(rng, lay, a)[0])])
+                vb = L.make_obj(lay, m, L.gen_message(rng, lay, m, 'full')).serialize()[4:]
+                sb = mk(b, [('valid', vb), ('valid', valid_body(rng, lay, b)[0])])
+                sb['prelude'] = [sa]
+                out += [sa, sb]
+    return out
+
+
 def monitor(run: Run, sc: dict, obs: dict, lay: dict):
     """Property text on one real run."""
     expected = [isolated_decode(sc['kind'], p) for p in sc['plains']]
@@ -413,7 +447,8 @@ def monitor(run: Run, sc: dict, obs: dict, lay: dict):
 def scenario_witness(sc: dict) -> dict:
     return {'kind': sc['kind'], 'obf': sc['obf'], 'plains': [p.hex() for p in sc['plains']], 'wire': b''.join(sc['chunks']).hex(),
             'chunk_sizes': [len(c) for c in sc['chunks']],
-            'ending': sc['ending'], 'partial': sc['partial'].hex(), 'raise_every': sc['raise_every'], 'labels': sc['labels'], 'scenario': 'stream'}
+            'ending': sc['ending'], 'partial': sc['partial'].hex(), 'raise_every': sc['raise_every'], 'labels': sc['labels'], 'scenario': 'stream',
+            'prelude': [scenario_witness(p) for p in sc.get('prelude', [])]}
 
 
 def witness_chunks(wit: dict) -> list:
@@ -701,6 +736,8 @@ def run(run: Run):
                 'frames with bodies of 64 KiB+1 .. 150000 bytes (huge valid string/blob field or hostile filler) in 1460..40000-byte segments '
                 '(judged by the monitor only). '
                 'distinct = distinct (kind, chunks, ending); non-trivial = at least one undecodable and one decodable frame. '
+                'Cross-family: for every ordered pair of connection kinds a frame whose code belongs to the other family, then valid frames '
+                'with that code on a connection of that family (decoding must not depend on other connections\' history). '
                 'Accept path: 10 first-frame shapes x plain/obfuscated port next to an established connection. Handler hypothesis: '
                 'every message class twice through a fully wired client.')
     run.trusted += ['asyncio.StreamReader.readexactly semantics (the real one is used in the correspondence runs)',
@@ -724,7 +761,8 @@ def run(run: Run):
     # --- reader loop on fake transports
     n = 28 if run.tier == 'quick' else 200
     scs = []
-    todo = [(sc['kind'], sc) for sc in directed_scenarios(run.rng, play)]
+    todo = [(sc['kind'], sc) for sc in cross_family_scenarios(run.rng, play)]     # first: nothing else has touched process-wide state yet
+    todo += [(sc['kind'], sc) for sc in directed_scenarios(run.rng, play)]
     todo += [(sc['kind'], sc) for sc in large_scenarios(run.rng, play, 3 if run.tier == 'quick' else 12)]
     for kind in KINDS:
         todo += [(kind, None) for _ in range(n)]
@@ -796,6 +834,9 @@ def replay(rep: dict) -> int:
             except Exception:
                 w.close()
     if wit.get('scenario') == 'stream':
+        for pw in wit.get('prelude', []):
+            run_real(pw['kind'], pw['obf'], witness_chunks(pw), pw['ending'], bytes.fromhex(pw['partial']), pw['raise_every'], lay)
+            print('prelude: frames', pw['labels'], 'on a', pw['kind'], 'connection')
         sc = {'kind': wit['kind'], 'obf': wit['obf'], 'plains': [bytes.fromhex(x) for x in wit['plains']],
               'chunks': witness_chunks(wit), 'ending': wit['ending'], 'partial': bytes.fromhex(wit['partial']),
               'raise_every': wit['raise_every'], 'labels': wit['labels']}
@@ -806,7 +847,7 @@ def replay(rep: dict) -> int:
         print('delivered :', [type(x).__qualname__ for x in obs['objs']])
         print('decodable :', [type(x).__qualname__ for x in exp])
         print('reader alive:', obs['reader_alive'], 'state:', obs['state'], 'unhandled:', obs['unhandled'])
-        bad = obs['objs'] != exp or obs['unhandled'] or (sc['ending'] == 'open' and (not obs['reader_alive'] or obs['closed']))
+        bad = violates(sc, obs)
         return 1 if bad else 0
     if wit.get('scenario') == 'accept':
         from vlib.world import World
